@@ -47,6 +47,7 @@ From CG Require Import Model.EmitData.
 From CG Require Import Spec.InvocationsSub.
 From CG Require Import Model.Compiler.
 From CG Require Import Model.Diag.
+From CG Require Import Model.EmitZsh.
 (* add new Require lines above this line *)
 Require Import ExtrOcamlBasic ExtrOcamlString.
 Extraction Language OCaml.
@@ -171,5 +172,6 @@ Separate Extraction
   Diag.render
   Diag.error_messages
   Diag.warning_messages
+  EmitZsh.script_of_dfa
   (* add new roots above this line *)
   Prelude.pow2.
